@@ -96,6 +96,17 @@ PROPS["C04"] = {
         K("protect_rtcp∘unprotect_rtcp GCM (12 B)", "c04_rtcp_gcm_roundtrip_12", "thorough", "bounded",
           ["SrtpContext::protect_rtcp", "SrtpContext::unprotect_rtcp", "SrtpContext::build_gcm_rtcp_nonce"],
           "identity; header in clear; trailer == index word with E bit; index incremented", bound="12-byte RTCP packet; aes-gcm substitute", timeout=1500),
+        K("SRTCP tag is 80 bits under AES_CM_128_HMAC_SHA1_32 (RFC 5764 4.1.2)", "c04_rtcp_tag_len_rfc5764_sha32", "quick", "bounded",
+          ["SrtpContext::protect_rtcp", "SrtpProfile::tag_len"],
+          "protect_rtcp appends the 4-byte index word and a 10-byte tag: the _32 profile shortens only the SRTP tag (RFC 5764 4.1.2 'RTCP auth_tag_length: 80'; libsrtp and webrtc-srtp do the same), otherwise an independent implementation rejects every SRTCP packet",
+          bound="12-byte RTCP packet", timeout=900),
+        K("SRTCP tag is 80 bits under AES_CM_128_HMAC_SHA1_80", "c04_rtcp_tag_len_rfc5764_sha80", "thorough", "bounded", ["SrtpContext::protect_rtcp"],
+          "same", bound="12-byte RTCP packet", timeout=900),
+        K("protect_rtcp∘unprotect_rtcp SHA1_32 (12 B)", "c04_rtcp_roundtrip_sha32_12", "thorough", "bounded",
+          ["SrtpContext::protect_rtcp", "SrtpContext::unprotect_rtcp"], "identity under the _32 profile", bound="12-byte RTCP packet", timeout=900),
+        K("protect∘unprotect round trip, padding-only packet", "c04_roundtrip_sha80_p0_pad1", "quick", "bounded",
+          ["SrtpContext::protect", "SrtpContext::unprotect"],
+          "a packet with empty payload and one padding byte (P bit set) round-trips like any other", bound="12-byte header, empty payload, padding 1", timeout=1200),
         K("canary: estimate_roc always returns roc", "canary_estimate_roc_always_roc", "quick", "canary", ["SrtpContext::estimate_roc"],
           "false claim, must FAIL", expect="fail"),
     ],
